@@ -2,10 +2,10 @@ SPECIFICATION Spec
 CONSTANTS
   ROPool = TRUE
   ClassifyWholeText = TRUE
-  GuardEveryROStmt = TRUE
+  GuardEveryROStmt = FALSE
   LocalReadsOnROPool = TRUE
-  StrongQueryOnROPool = FALSE
+  StrongQueryOnROPool = TRUE
   Nodes = {n1, n2, n3}
   SeqClasses = {"select", "write", "ro-head-rw-tail", "explain-write", "explain-ro-head-rw-tail", "pragma-optimize", "insert-returning"}
   MaxLen = 3
-INVARIANT OnlyThroughLog
+INVARIANT NoChangeByRead
